@@ -9,6 +9,8 @@ CONSTANTS
   AllowKF = FALSE
   Taint = TRUE
   Flips = TRUE
+  Cuts = {1, 2, 3, 4}
+  CutTail = 2
   MaxOps = 5
   Emit = TRUE
 INVARIANTS PrintHist
